@@ -47,11 +47,17 @@ func stepDigest(r TxResult, apphash []byte) string {
 }
 
 // replayConcrete runs a recorded concrete history on a new IAVL-backed instance with a commit per transaction.
-func replayConcrete(tab *SymTab, h concreteHistory) []string {
+func replayConcrete(tab *SymTab, h concreteHistory) []string { return replayConcreteR(tab, h, false) }
+
+// replayConcreteR with restart=true re-creates the keeper before every transaction (only the store carries state).
+func replayConcreteR(tab *SymTab, h concreteHistory, restart bool) []string {
 	inst := NewInstance(tab, true)
 	inst.Materialise(h.Genesis)
 	out := []string{hex.EncodeToString(inst.Commit())[:24]}
 	for _, tx := range h.Txs {
+		if restart {
+			inst.RestartKeeper()
+		}
 		wire, _ := hex.DecodeString(tx.Wire)
 		r := inst.RunTx(tx.TypeURL, wire, tx.Faults)
 		out = append(out, stepDigest(r, inst.Commit()))
@@ -106,7 +112,7 @@ func cmdDeterminism(tab *SymTab, bw *bufio.Writer, n, depth int, seed int64) {
 		json.Unmarshal(childOut, &child)
 	}
 	for i, h := range hs {
-		reps := M{"first": first[h.ID], "fresh": replayConcrete(tab, h)}
+		reps := M{"first": first[h.ID], "fresh": replayConcrete(tab, h), "restarted": replayConcreteR(tab, h, true)}
 		// after an unrelated history in the same process
 		other := hs[(i+1)%len(hs)]
 		replayConcrete(tab, other)
@@ -138,7 +144,7 @@ func cmdDeterminism(tab *SymTab, bw *bufio.Writer, n, depth int, seed int64) {
 		bw.Write(bz)
 		bw.WriteByte('\n')
 	}
-	fmt.Fprintf(os.Stderr, "determinism: %d histories x %d steps x 7 replicas\n", n, depth)
+	fmt.Fprintf(os.Stderr, "determinism: %d histories x %d steps x 8 replicas\n", n, depth)
 }
 
 func cmdDetChild(tab *SymTab, rd *os.File, bw *bufio.Writer) {
